@@ -2,6 +2,7 @@ import Driver.Util
 import Driver.Send
 import Driver.Recv
 import OFModel.Zmq.Pair
+import OFModel.Zmq.PairEph
 open Lean Driver OF.Pair
 namespace Driver.Pair
 
@@ -12,6 +13,12 @@ def parseEv (o : Json) : R Ev := do
   | "rc" => return .restartConsumer (← boolF o "g")
   | "rp" => return .restartPublisher (← boolF o "g")
   | k => throw s!"bad pair event {k}"
+
+/-- events of the pair with an ephemeral client (`k = "eph"`), the plain pair events otherwise -/
+def parseEvE (o : Json) : R OF.PairE.Ev := do
+  match (← strF o "k") with
+  | "eph" => return .ephRequest (← strF o "uid") (← intF o "mid") (← natF o "eph") (← boolF o "new") ((natF o "body").toOption.getD 0)
+  | _ => return .base (← parseEv o)
 
 def obsJson : Obs → Json
   | .sent outs => obj [("k", "sent"), ("outs", jarr (outs.map Driver.Send.outJson))]
@@ -28,8 +35,8 @@ def handle (op : String) (j : Json) : R Json := do
     let mut st := init
     let mut res : Array Json := #[]
     for o in (← arrF j "evs") do
-      let e ← parseEv o
-      let r := step st e
+      let e ← parseEvE o
+      let r := OF.PairE.step st e
       st := r.1
       res := res.push (obj [("obs", obsJson r.2), ("st", stJson st)])
     return obj [("events", Json.arr res)]
